@@ -74,14 +74,15 @@ class Channel(ClientMessageSink):
 
   @property
   def state(self):
-    # a balancer that reads member states without end inside one operation is spinning (a corrupted heap or down-queue):
+    # a balancer that reads member states without end, with no request reaching a member or completing in between, is
+    # spinning (a corrupted heap or down-queue):
     # counted deterministically, so that the case is reported instead of hanging the run
     run = self.run
     n = run.state_reads = getattr(run, 'state_reads', 0) + 1
     if n > 200000:
       run.state_reads = 0
       for prop in ('C03', 'C04', 'C05', 'C06'):
-        run.viol(prop, 'balancer-spins', 'the balancer read member states 200 000 times within one operation without returning')
+        run.viol(prop, 'balancer-spins', 'the balancer read member states 200 000 times without a request reaching a member or completing in between')
     return self._state
 
   def Open(self):
@@ -127,6 +128,7 @@ class Channel(ClientMessageSink):
 
   def AsyncProcessRequest(self, sink_stack, msg, stream, headers):
     req = msg.properties.get('__vf_req')
+    self.run.state_reads = 0      # a request reaching a member is progress
     if req is not None and getattr(req, 'timed_out_parked', False):
       for prop in ('C04', 'C03', 'C05', 'C06'):
         self.run.viol(prop, 'dispatched-after-timeout', 'request %d timed out while it was parked in the balancer (its caller holds TimeoutError), yet it was handed to %r later: that member carries load for a call that is over' % (req.id, self))
@@ -245,6 +247,9 @@ class Terminal(ClientMessageSink):
 
   def AsyncProcessResponse(self, sink_stack, context, stream, msg):
     context.completions.append((loop.now(), msg))
+    run_ = getattr(context, 'run', None)
+    if run_ is not None:
+      run_.state_reads = 0      # a completion is progress
     if context.done is not None:
       context.done.set()
     hook, context.on_done = getattr(context, 'on_done', None), None
@@ -552,8 +557,10 @@ class LBRun(object):
     settle()
 
   def dispatch_raw(self):
+    self.state_reads = 0
     rid = len(self.reqs)
     r = Req(rid, self.step)
+    r.run = self
     self.reqs.append(r)
     st = ClientMessageSinkStack()
     st.Push(Terminal(), r)
@@ -633,6 +640,8 @@ class LBRun(object):
   def op_dispatch(self, handler_raises=False):
     rid = len(self.reqs)
     r = Req(rid, self.step)
+    r.run = self
+    self.state_reads = 0
     r.handler_raises = handler_raises
     self.reqs.append(r)
     st = ClientMessageSinkStack()
